@@ -252,20 +252,29 @@ HasExpect(f) == f \in DOMAIN expect
 FixKeys == { <<expect.fix[i].kind, expect.fix[i].ns, expect.fix[i].name>> : i \in DOMAIN expect.fix }
 FixOf(k) == expect.fix[CHOOSE i \in DOMAIN expect.fix : <<expect.fix[i].kind, expect.fix[i].ns, expect.fix[i].name>> = k]
 OwnedNow(st) == { k \in DOMAIN st : st[k].live /\ st[k].kind \in ChildKinds /\ st[k].ctrl = expect.parentUid
+                                     /\ (expect.parentNs = "" \/ st[k].ns = expect.parentNs)
                                      /\ (expect.marker = "" \/ (MarkerKey \in DOMAIN st[k].ann /\ st[k].ann[MarkerKey] = expect.marker)) }
+\* nothing left to adopt or release (composite): no matching live orphan, no owned non-matching child
+ClaimsSettled(st) ==
+  "sel" \notin DOMAIN expect
+  \/ \A k \in DOMAIN st : (st[k].live /\ st[k].kind \in ChildKinds /\ (expect.parentNs = "" \/ st[k].ns = expect.parentNs))
+        => /\ ~(st[k].ctrl = "" /\ ~st[k].deleting /\ Matches(expect.sel, st[k].labels))
+           /\ ~(st[k].ctrl = expect.parentUid /\ ~Matches(expect.sel, st[k].labels))
 AtFix(st) == /\ OwnedNow(st) = FixKeys
+             /\ ClaimsSettled(st)
              /\ expect.updatable => \A k \in FixKeys : SubFn(FixOf(k).fields, st[k].fields) /\ SubFn(FixOf(k).labels, st[k].labels)
-C01_QuietAtFix ==
-  (ReqE /\ HasExpect("fix") /\ C.atFix /\ C.fresh /\ IsChildReq(E) /\ E.verb \in WriteVerbs)
-  => Report("C01", "C01_Quiet", <<"child write at the fixpoint", E.verb, Key(E), E.code>>)
+\* (the statement asks for SOME state with owned = desired from which syncs are quiet; a sync that
+\* still records the last-applied annotation of an adopted child is on its way there, so quiescence is
+\* judged from the first sync that changed nothing, and at the end of the bounded run)
 C01_QuietAfterQuiet ==
   (ReqE /\ HasExpect("fix") /\ C.prevQuiet /\ C.fresh /\ E.verb # "get" /\ (E.post # E.pre \/ IsChildReq(E)))
   => Report("C01", "C01_Quiet", <<"write after a sync that changed nothing (hot loop)", E.verb, Key(E), E.code>>)
 C01_Bounded ==
   (IsEv("End") /\ HasExpect("fix"))
-  => \/ (AtFix(store) /\ \A a \in DOMAIN ctx : ~ctx[a].wrote /\ ctx[a].result = "ok")
-     \/ Report("C01", "C01_Bounded", <<"not converged after the bound", "owned", OwnedNow(store), "fix", FixKeys,
-                                        "lastSyncWrote", [a \in DOMAIN ctx |-> ctx[a].wrote], "result", [a \in DOMAIN ctx |-> ctx[a].result]>>)
+  => \/ (AtFix(store) /\ \A a \in DOMAIN ctx : ~ctx[a].wrote /\ ctx[a].childReqs = 0 /\ ctx[a].result = "ok")
+     \/ Report("C01", "C01_Bounded", <<"not converged and quiet after the bound", "owned", OwnedNow(store), "fix", FixKeys,
+                                        "lastSyncWrote", [a \in DOMAIN ctx |-> ctx[a].wrote], "lastSyncChildRequests", [a \in DOMAIN ctx |-> ctx[a].childReqs],
+                                        "result", [a \in DOMAIN ctx |-> ctx[a].result]>>)
 
 \* =======================================================================================
 \* C03 -- the hook sees exactly the owned children, in the documented shape
